@@ -31,7 +31,11 @@ RCOLS = [("m", "num"), ("b", "str"), ("a", "num")]
 
 def gen_side(rnd, cols):
     n = rnd.randint(0, 7)
-    npool = rnd.choice([[1, 2, 3], [1, 1, 2], [0, 1, 2, 3, 10], [1.5, 2, 2.5]])
+    # (neighbours beyond 2^24 and with many significant digits: distinct keys whose texts differ only in the last digits;
+    #  1e6 / 1e21: where the %v text of a key changes shape)
+    npool = rnd.choice([[1, 2, 3], [1, 1, 2], [0, 1, 2, 3, 10], [1.5, 2, 2.5], [1, 2, 3], [0, 1, 2, 3, 10],
+                        [40000001, 40000002, 40000003, 7], [16777216, 16777217, 16777218], [0.1, 0.10000000149011612, 0.3],
+                        [1000000, 999999, 1e21, 123456789.25, 123456789.5]])
     spool = rnd.choice([["p", "q"], ["a-", "a", "-b", "b"], ["x", "y", "z"], ["1", "2", "1-"]])
     rows = []
     for _ in range(n):
